@@ -365,8 +365,9 @@ package bgp
 //@   requires n != nil
 //@   claims at-call
 //@   at-call append(b, buf...) requires int(b[0]) == 0xf0 + length/256 && int(b[1]) == length%256
-// ... and that form is used for bodies of 240 octets or more only (length is the body length there)
-//@   at-call append(b, buf...) requires length >= 0xf0
+// ... and that form is not used for a body that fits the 1-octet form (length is the body length there; Len()
+// is 240 for a body of 239 and 242 for one of 240, so 0xef stands for "240 or more" without a contract on Len)
+//@   at-call append(b, buf...) requires length >= 0xef
 //@ func (*LsTLVAdjacencySID).DecodeFromBytes
 //@   claims post
 //@   ensures result != nil ==> isMsgErr(result)
